@@ -57,6 +57,14 @@ Theorem C11_stack_safe : forall c ops s live,
 Proof. exact stack_safe_proof. Qed.
 Print Assumptions C11_stack_safe.
 
+(* under the documented LIFO precondition (dealloc / realloc-to-0 of the newest block only) a
+   history of valid calls never trips a run-time check *)
+Theorem C11_stack_total : forall c ops, scfg_ok c -> Forall sop_usize ops -> Forall sop_lifo ops ->
+  exists s live, srun c (stack_init, []) ops = Some (s, live) /\
+                 good_blocks (s_base c) (s_size c) (s_align c) live.
+Proof. exact stack_total_proof. Qed.
+Print Assumptions C11_stack_total.
+
 Theorem C11_stack_alloc_dealloc_restores : forall c ops s live n s1 p,
   scfg_ok c -> Forall sop_usize ops -> srun c (stack_init, []) ops = Some (s, live) ->
   0 <= n < two64 ->
@@ -78,6 +86,12 @@ Theorem C11_pool_safe : forall c ops s live,
 Proof. exact pool_safe_proof. Qed.
 Print Assumptions C11_pool_safe.
 
+(* a history of valid calls never trips the pool's check *)
+Theorem C11_pool_total : forall c ops, pcfg_ok c -> Forall pop_usize ops ->
+  exists s live, prun c (pool_init, []) ops = Some (s, live) /\ pool_good c live.
+Proof. exact pool_total_proof. Qed.
+Print Assumptions C11_pool_total.
+
 (* ---------------- heap (abstract chunk-list model, compared with the code on every check) -------- *)
 (* every history runs without a panic; in every reachable state the chunks tile the region, are
    16-aligned, every bin lists exactly the free chunks of its size class (once), the live blocks
@@ -88,15 +102,6 @@ Theorem C11_heap_safe : forall c ops, hcfg_ok c -> Forall hop_usize ops ->
                  good_blocks (h_base c) (h_size c) ALLOC_ALIGN live.
 Proof. exact heap_safe_proof. Qed.
 Print Assumptions C11_heap_safe.
-
-(* dealloc of any non-nil pointer that is not a live block (second free of the same pointer,
-   foreign pointer) panics instead of touching the heap *)
-Theorem C11_heap_invalid_free_reported : forall c ops s live p,
-  hcfg_ok c -> Forall hop_usize ops -> hrun c (ha_init_state, []) ops = Some (s, live) ->
-  ha_initialized s = true -> 0 < p < two64 -> ~ In p (map b_addr live) ->
-  ha_dealloc s p = HPanic.
-Proof. exact heap_invalid_free_reported_proof. Qed.
-Print Assumptions C11_heap_invalid_free_reported.
 
 (* no two adjacent chunks are ever both free *)
 Theorem C11_heap_no_adjacent_free : forall c ops s live,
@@ -133,14 +138,25 @@ Theorem C11_heap_mem_safe : forall c ops, hcfg_ok c -> Forall hop_usize ops ->
 Proof. exact heap_mem_safe_proof. Qed.
 Print Assumptions C11_heap_mem_safe.
 
-(* the cookie test: a pointer to the header of a free chunk is rejected by the memory-level dealloc *)
-Theorem C11_heap_mem_free_header_reported : forall c ops s sa live x,
+(* "reports a double free instead of corrupting itself", full strength on the memory-level model:
+   dealloc of ANY non-nil pointer that is not a live block panics.  False of the unchanged code:
+   deallocall leaves the NODE_COOKIE marks of the old chunks in the buffer (known finding) *)
+Theorem C11_heap_mem_invalid_free_reported_refuted : ~ heap_mem_invalid_free_reported_full.
+Proof. exact heap_mem_invalid_free_reported_refuted_proof. Qed.
+Print Assumptions C11_heap_mem_invalid_free_reported_refuted.
+
+(* what does hold: a pointer to the header of a FREE chunk of the current state - a block that has
+   just been freed and was not absorbed by its predecessor, a block of a coalesced region's start -
+   fails the cookie test of the memory-level dealloc.  (Pointers into payloads read client bytes or
+   stale header words; with the abstract model they are all rejected, which is why the abstract
+   statement is not listed here any more.) *)
+Theorem C11_heap_mem_invalid_free_reported_partial : forall c ops s sa live x,
   hcfg_ok c -> Forall hop_usize ops ->
   crun c (heap_init_state, []) ops = Some (s, live) -> hrun c (ha_init_state, []) ops = Some (sa, live) ->
   ha_initialized sa = true -> In x (ha_chunks sa) -> c_used x = false ->
   hp_dealloc s (c_addr x + NODE) = HPanic.
 Proof. exact heap_mem_free_header_reported_proof. Qed.
-Print Assumptions C11_heap_mem_free_header_reported.
+Print Assumptions C11_heap_mem_invalid_free_reported_partial.
 
 (* ---------------- heap: payload contents (byte functions, as for the arena) ---------------- *)
 (* realloc keeps the first min(old,new) bytes of the block - also when it moves it (memory.copy of
